@@ -234,6 +234,11 @@ class MarketSpec:
                     for p in list(st[side][s]):
                         e.setdefault(side, []).append([p, 0])
                     st[side][s] = {}
+            elif k == "AF":  # ["AF", {sel: adjustment factor}]: the exchange re-bases the remaining runners' factors
+                for sel, af in ev[1].items():
+                    st["runners"][key(int(sel) if not isinstance(sel, (tuple, list)) and not (isinstance(sel, str) and ":" in sel) else sel)]["af"] = af
+                st["version"] += 1
+                flags["md"] = True
             elif k == "CL":  # ["CL", {sel: result}]
                 st["status"] = "CLOSED"
                 st["inplay"] = st["inplay"]
